@@ -251,6 +251,8 @@ def enumerate_pair(seed, tier, explicit=None):
                     exc, fired, cnt, cbl, stl = run_target(sim, tgt, fault=fault, record=True)
                 if not fired:
                     continue      # the armed point was not reached (legal: e.g. F4 had room)
+                sim.W.log(point=fault, fired=fired, exc=type(exc).__name__ if exc else None,
+                          counters=cnt)
                 stats['points'] += 1
                 fk = fired[0]
                 stats['by_kind'][fk] = stats['by_kind'].get(fk, 0) + 1
